@@ -78,10 +78,12 @@ func main() {
 	childSeed := flag.Int64("childseed", 0, "internal")
 	childExit := flag.Int64("childexit", 0, "internal: exit at this storage step")
 	childPost := flag.Bool("childpost", false, "internal: exit after the step")
+	childWl := flag.Int("childwl", 0, "internal: workload number")
+	childOpen := flag.Bool("childopen", false, "internal: count (and crash at) the storage steps of Open itself")
 	flag.StringVar(&outDir, "out", "/verif/replays", "replay directory")
 	flag.Parse()
 	if *child != "" {
-		crashChild(*child, *childSeed, *childExit, *childPost)
+		crashChild(*child, *childSeed, *childWl, *childExit, *childPost, *childOpen)
 		return
 	}
 	start := time.Now()
@@ -146,24 +148,21 @@ func isWrite(st *hx.Step) bool {
 }
 
 func runC07(seed int64, n int) {
-	prof := hx.Profiles["mixed"]
-	prof.MinSteps, prof.MaxSteps = 6, 30
-	g := hx.NewGen(seed, prof)
-	for caseNo := 0; caseNo < n && len(sum.Failures) == 0; caseNo++ {
-		h := g.History(caseNo)
-		// the operation under test: the last write step; everything before is the pre-state
-		target := -1
-		for i := len(h.Steps) - 1; i >= 2; i-- {
-			// (a transaction body that ignores its operations' errors and commits is not given
-			// storage faults: swallowing an I/O error and committing is outside the property)
-			if isWrite(h.Steps[i]) && h.Steps[i].Gen == nil && !(h.Steps[i].Block && !h.Steps[i].StopOnErr) {
-				target = i
-				break
-			}
+	covered := map[string]int{}
+	// the operation under test: a write step (single operation at DB level, or a caller-managed
+	// transaction that stops at the first error); everything before it builds the pre-state.
+	// (a transaction body that ignores its operations' errors and commits is not given
+	// storage faults: swallowing an I/O error and committing is outside the property)
+	cases := opCases(seed, n, allFamilies, func(p *hx.Profile) { p.MinSteps, p.MaxSteps = 6, 30 },
+		func(st *hx.Step) bool { return isWrite(st) && !(st.Block && !st.StopOnErr) }, covered)
+	coverageCounters("target_", covered)
+	g := hx.NewGen(seed, hx.Profiles["mixed"])
+	for caseNo, c := range cases {
+		if len(sum.Failures) > 0 {
+			break
 		}
-		if target < 0 {
-			continue
-		}
+		h := &hx.History{ID: c.Hist.ID, Steps: append(append([]*hx.Step{}, c.Prefix...), c.Target)}
+		target := len(h.Steps) - 1
 		x, err := hx.OpenMemDriver(fmt.Sprintf("c07_%d", caseNo), hx.FaultDriverName)
 		if err != nil {
 			fail("harness", err.Error(), nil)
@@ -305,11 +304,13 @@ func c07Bodies(seed int64, n int) {
 				sum.Cases++
 				count("body_" + how)
 				distinct(how + strings.Join(desc, ";") + fmt.Sprint(j))
+				var ret error
 				func() {
 					defer func() { _ = recover() }()
 					ctx, cancel := context.WithCancel(context.Background())
 					defer cancel()
-					_ = x.DB.UpdateContext(ctx, func(tx *redka.Tx) error {
+					ret = errBody
+					ret = x.DB.UpdateContext(ctx, func(tx *redka.Tx) error {
 						r := hxTx(tx)
 						for i, op := range body {
 							if i == j {
@@ -346,6 +347,23 @@ func c07Bodies(seed int64, n int) {
 					fail("c07-not-atomic", fmt.Sprintf("a transaction body [%s] aborted by %s after %d operations changed the database\n before: %s\n after : %s",
 						strings.Join(desc, " ; "), how, j, d0, dk), map[string]any{"body": desc, "abort": how, "after": j})
 					return
+				}
+				if ret == nil {
+					// success was reported and nothing changed: only legitimate when the body has no effect at all
+					_ = x.DB.Update(func(tx *redka.Tx) error {
+						r := hxTx(tx)
+						for _, op := range body {
+							op.Run(r, x, op)
+						}
+						return nil
+					})
+					dz, _ := x.DumpRaw()
+					if dz != d0 {
+						fail("c07-not-atomic", fmt.Sprintf("a transaction body [%s] whose context was cancelled after %d operations reported SUCCESS (nil error) although none of its effects were applied\n content: %s\n the same body, committed: %s",
+							strings.Join(desc, " ; "), j, d0, dz), map[string]any{"body": desc, "abort": how, "after": j})
+						return
+					}
+					count("body_success_without_effect")
 				}
 			}
 		}
@@ -385,12 +403,32 @@ func c07ReadOnly(seed int64) {
 		return
 	}
 	defer os.RemoveAll(dir)
-	path := filepath.Join(dir, "ro.db")
+	// the database path as a plain file name and as URIs with the open modes SQLite accepts
+	for i, form := range []string{"%s", "file:%s", "file:%s?mode=rwc", "file:%s?mode=rw", "file:%s?cache=private&mode=rwc"} {
+		if len(sum.Failures) > 0 {
+			return
+		}
+		file := filepath.Join(dir, fmt.Sprintf("ro%d.db", i))
+		if strings.Contains(form, "mode=rw") && !strings.Contains(form, "mode=rwc") {
+			// mode=rw does not create: make the file first
+			x0, err := hx.OpenPath(file)
+			if err != nil {
+				fail("harness", err.Error(), nil)
+				return
+			}
+			x0.Close()
+		}
+		c07ReadOnlyPath(seed+int64(i), fmt.Sprintf(form, file), file)
+	}
+}
+
+func c07ReadOnlyPath(seed int64, path, file string) {
 	x, err := hx.OpenPath(path)
 	if err != nil {
-		fail("harness", err.Error(), nil)
+		fail("harness", "open "+path+": "+err.Error(), nil)
 		return
 	}
+	count("readonly_path_forms")
 	for _, st := range []*hx.Op{hx.SSet("k1", hx.VStr("v")), hx.LPushBack("k2", hx.VStr("a")), hx.EAdd("k3", hx.VStr("m")),
 		hx.HSet("k4", "f", hx.VStr("v")), hx.ZAdd("k5", hx.VStr("m"), 1)} {
 		runStepRaw(x, &hx.Step{Ops: []*hx.Op{st}})
@@ -417,7 +455,7 @@ func c07ReadOnly(seed int64) {
 	}
 	d1, _ := x.DumpRaw()
 	if d1 != d0 {
-		fail("c07-readonly-wrote", fmt.Sprintf("operations inside read-only (View) transactions changed the database\n before: %s\n after : %s", d0, d1), nil)
+		fail("c07-readonly-wrote", fmt.Sprintf("database opened as %q: operations inside read-only (View) transactions changed the database\n before: %s\n after : %s", path, d0, d1), nil)
 	}
 	x.Close()
 	// (2) a read-only handle on the same file
@@ -448,6 +486,6 @@ func c07ReadOnly(seed int64) {
 	d2, _ := x2.DumpRaw()
 	x2.Close()
 	if d2 != d0 {
-		fail("c07-readonly-wrote", fmt.Sprintf("operations through a read-only handle changed the database\n before: %s\n after : %s", d0, d2), nil)
+		fail("c07-readonly-wrote", fmt.Sprintf("database opened as %q: operations through a read-only handle changed the database\n before: %s\n after : %s", path, d0, d2), nil)
 	}
 }
